@@ -46,14 +46,17 @@ TypesOf(t) == << [n |-> t.n, car_len |-> t.car_len, car_mass |-> t.car_mass, axl
                   vmax |-> t.vmax, brakes |-> 1] >> \o t.more
 RECURSIVE SumSeq(_)
 SumSeq(q) == IF q = <<>> THEN 0 ELSE q[1] + SumSeq(Tail(q))
-TLen(t)      == IF t.len_ov > 0 THEN t.len_ov
+(* one-type trains (t.more empty) take the closed forms: TLC evaluates a definition again at every use, and these *)
+(* are used at every breakpoint of every recorded profile                                                         *)
+TLen(t)      == IF t.len_ov > 0 THEN t.len_ov ELSE IF t.more = <<>> THEN t.n * t.car_len
                 ELSE LET ty == TypesOf(t) IN SumSeq([k \in 1..Len(ty) |-> ty[k].n * ty[k].car_len])
-MassTotal(t) == IF t.mass_ov > 0 THEN t.mass_ov
+MassTotal(t) == IF t.mass_ov > 0 THEN t.mass_ov ELSE IF t.more = <<>> THEN t.n * t.car_mass
                 ELSE LET ty == TypesOf(t) IN SumSeq([k \in 1..Len(ty) |-> ty[k].n * ty[k].car_mass])
-Brakes(t)    == LET ty == TypesOf(t) IN SumSeq([k \in 1..Len(ty) |-> ty[k].n * ty[k].brakes])
-AxleCount(t) == LET ty == TypesOf(t) IN SumSeq([k \in 1..Len(ty) |-> ty[k].n * ty[k].axles])
+Brakes(t)    == IF t.more = <<>> THEN t.n ELSE LET ty == TypesOf(t) IN SumSeq([k \in 1..Len(ty) |-> ty[k].n * ty[k].brakes])
+AxleCount(t) == IF t.more = <<>> THEN t.n * t.axles ELSE LET ty == TypesOf(t) IN SumSeq([k \in 1..Len(ty) |-> ty[k].n * ty[k].axles])
 (* the train's own maximum speed: the slowest car type actually present *)
-TVmax(t)     == LET ty == TypesOf(t) IN SetMin({ty[k].vmax : k \in {k \in 1..Len(ty) : ty[k].n > 0}})
+TVmax(t)     == IF t.more = <<>> THEN t.vmax
+                ELSE LET ty == TypesOf(t) IN SetMin({ty[k].vmax : k \in {k \in 1..Len(ty) : ty[k].n > 0}})
 
 Cmp(ct, a, b) == CASE ct = 0 -> a = b
                    [] ct = 1 -> a > b
